@@ -11,6 +11,8 @@ REPLAYS = os.path.join(VERIF, "replays")
 if REPO != "/repo":
     # development aid (a check run against a scratch worktree): the evidence of /verif describes /repo only
     EVIDENCE = os.path.join("/tmp", "verif-alt-evidence")
+if os.environ.get("VERIF_EVIDENCE_DIR"):   # development aid (runs with other seeds)
+    EVIDENCE = os.environ["VERIF_EVIDENCE_DIR"]
 TLA_CP = "/opt/veriftools/tla/tla2tools.jar:/opt/veriftools/tla/CommunityModules-deps.jar"
 NCPU = os.cpu_count() or 4
 
